@@ -54,6 +54,24 @@ var atoms = []atom{
 		"package-operator.run/collision-protection": "IfNoController", "package-operator.run/condition-map": "Ready => my/Ready", "keep": "me"})},
 		[]doc{{Path: "ann.yaml", Name: "x", Phase: "p2", CP: "IfNoController", CondMap: 1}}},
 	{"Z", map[string]string{"sub.yaml": pkgw.WidgetYAML("Gadget", "z", "p3", "1", nil)}, []doc{{Path: "sub.yaml", Name: "z", Phase: "p3"}}},
+	bigAtom(),
+}
+
+// bigAtom: five files with three documents each (15 objects, above the small-slice thresholds
+// of the standard sort routines), all in one phase so that their relative order is observable.
+func bigAtom() atom {
+	a := atom{ID: "B", Files: map[string]string{}}
+	for f := 1; f <= 5; f++ {
+		path := fmt.Sprintf("big/f%d.yaml", f)
+		var parts []string
+		for d := 0; d < 3; d++ {
+			name := fmt.Sprintf("big-%d-%d", f, d)
+			parts = append(parts, pkgw.WidgetYAML("Widget", name, "p2", "1", nil))
+			a.Docs = append(a.Docs, doc{Path: path, Index: d, Name: name, Phase: "p2"})
+		}
+		a.Files[path] = strings.Join(parts, "---\n")
+	}
+	return a
 }
 
 // Pkg is one generated package + context.
@@ -214,8 +232,9 @@ func packages(quick bool) []Pkg {
 		}
 	}
 	rec(0, "")
+	subsets = append(subsets, "B", "BM", "BATX")
 	if !quick {
-		subsets = append(subsets, ids, "AMTHCL", "MNXZCL", "ATHRNXZ")
+		subsets = append(subsets, ids, "AMTHCL", "MNXZCL", "ATHRNXZ", "B"+ids)
 	}
 	var out []Pkg
 	for _, s := range subsets {
@@ -237,7 +256,7 @@ func runOrders(o checks.Opts) *report.Report {
 	rep.Bounds["deviating_range_sites"] = bound
 	pk := packages(o.Quick())
 	rep.Bounds["packages"] = len(pk)
-	rep.Rule = "packages = every subset (<= 4 of 10) of file atoms {static doc, multi-doc with empty document, .gotmpl using .config, _helpers define + include, file under a conditional path, object with CEL condition annotation, non-YAML file, nested directory, object with collision-protection/condition-map annotations, sibling path} x 2 manifest phase orders x 2 configs; each rendered by the real load/validate/render pipeline under the canonical order and under every permutation (n<=4: all n!, else 4 representative orders) of the keys at <= `deviating_range_sites` executed `range`-over-map statements of packagerender/packagestructure (routed through vorder by the build overlay); distinct = (outcome class, template hash)"
+	rep.Rule = "packages = every subset (<= 4 of 10) of file atoms {static doc, multi-doc with empty document, .gotmpl using .config, _helpers define + include, file under a conditional path, object with CEL condition annotation, non-YAML file, nested directory, object with collision-protection/condition-map annotations, sibling path}, plus packages with a 5-file x 3-document block (15 objects in one phase), x 2 manifest phase orders x 2 configs; each rendered by the real load/validate/render pipeline under the canonical order and under every permutation (n<=4: all n!, else 4 representative orders) of the keys at <= `deviating_range_sites` executed `range`-over-map statements of packagerender, celctx and packagestructure (every map range found by type-checking the current source is routed through vorder by the build overlay); distinct = (outcome class, template hash)"
 	for i, p := range pk {
 		if o.Shards > 1 && i%o.Shards != o.Shard {
 			continue
